@@ -131,7 +131,59 @@ def special(sig):
     return 'sig-has[%s]' % ','.join(s)
 
 
+# parameter names that coincide with names the library is likely to use internally
+AWKWARD_NAMES = ['signature', 'method', 'params', 'exclude', 'self', 'cls', 'args', 'kwargs', 'context', 'request', 'name', 'validator', 'bound', 'handler', 'id']
+
+
+def run_awkward(case, rec):
+    """methods whose parameters are called like things the library itself handles (signature, method, params, self ...): named and
+    positional calls bind exactly like a direct python call"""
+    name = case['name']
+    obs = []
+    for disp in ('sync', 'async'):
+        for flavour in ('function', 'coroutine' if disp == 'async' else 'function-merged'):
+            log = []
+            ns = {'_log': log}
+            exec('%sdef f(a, %s="D"):\n    _log.append(dict(a=a, v=%s))\n    return %r\n' % ('async ' if flavour == 'coroutine' else '', name, name, RESULT), ns)
+            d = pjrpc.server.AsyncDispatcher() if disp == 'async' else pjrpc.server.Dispatcher()
+            target = pjrpc.server.MethodRegistry() if flavour.endswith('-merged') else d.registry
+            target.add(ns['f'], name='f')
+            if target is not d.registry:
+                d.add_methods(target)
+            for inp, want in (({'a': 1, name: 2}, dict(a=1, v=2)), ({name: 2, 'a': 1}, dict(a=1, v=2)), ([1, 2], dict(a=1, v=2)), ({'a': 1}, dict(a=1, v='D')),
+                              ({name: 2}, None), ({'a': 1, name: 2, 'zz': 3}, None), ([1, 2, 3], None)):
+                del log[:]
+                text = json.dumps({'jsonrpc': '2.0', 'id': 1, 'method': 'f', 'params': inp})
+                try:
+                    if disp == 'async':
+                        loop = VLoop()
+                        try:
+                            r = loop.run(d.dispatch(text))
+                        finally:
+                            loop.close()
+                    else:
+                        r = d.dispatch(text)
+                    resp = json.loads(r[0])
+                except Exception as e:   # noqa
+                    resp = {'raised': '%s: %s' % (type(e).__name__, e)}
+                rec.transitions += 1
+                code = resp.get('error', {}).get('code') if 'error' in resp else None
+                ok = (code is None and log == [want] and resp.get('result') == RESULT) if want is not None else (code == -32602 and not log)
+                rec.outcomes['%s:%s' % ('call' if want else 'refuse', 'ok' if ok else 'BAD')] += 1
+                if not ok:
+                    rec.violation('C04:%s:sig-has[]' % ('bindable arguments refused / changed for a parameter with an awkward name' if want is not None
+                                                        else 'unbindable arguments not refused with -32602 for a parameter with an awkward name'),
+                                  dict(case, disp=disp, flavour=flavour, input=inp), expected=want if want is not None else -32602, observed=dict(response=resp, saw=list(log)))
+                obs.append(ok)
+    rec.states += 1
+    rec.traces += 1
+    rec.nontrivial_n += 1
+    return tuple(obs)
+
+
 def gen_cases(ctx):
+    for name in AWKWARD_NAMES:
+        yield dict(awkward=True, name=name)
     sigs = signatures(ctx.pick(4, 5))
     for si, sig in enumerate(sigs):
         n = len(sig)
@@ -184,6 +236,8 @@ def build_params(sig, mode, pos):
 
 
 def run_case(case, rec):
+    if case.get('awkward'):
+        return run_awkward(case, rec)
     sig = tuple(tuple(x) for x in case['sig'])
     mode, pos = case['mode'], case['pos']
     bp = build_params(sig, mode, pos)
@@ -425,7 +479,10 @@ def replay(doc):
     from mc.core import Recorder, jdump
     rec = Recorder()
     c = doc['case']
-    run_case(dict(sig=c['sig'], mode=c['mode'], pos=c['pos']), rec)
+    if c.get('awkward'):
+        run_case(dict(awkward=True, name=c['name']), rec)
+    else:
+        run_case(dict(sig=c['sig'], mode=c['mode'], pos=c['pos']), rec)
     vs = [v for v in rec.violations if v['case']['input'] == c['input'] and v['case']['flavour'] == c['flavour'] and v['case']['disp'] == c['disp']] or rec.violations
     for v in vs[:5]:
         print('VIOLATION-REPLAY signature=%s\n  case=%s\n  expected=%s\n  observed=%s' % (
